@@ -52,6 +52,14 @@ mut("f22-revert-take-release-acquire", ["C10"], "release-swap",
 ben("f22-fence-form", ["C10", "C05"],
     ("src/sync/blocking.rs", "        self.release.store(true, Ordering::SeqCst);", "        self.release.store(true, Ordering::Relaxed);\n        std::sync::atomic::fence(Ordering::SeqCst);"))
 
+# ---- F23 / F24: revert (a destructor that takes a contended may Mutex is a cancellation point)
+mut("f23-revert-read-unlock-mask", ["C12", "C09"], "drop-not-a-cancellation-point",
+    ("src/sync/rwlock.rs", "        let _g = crate::cancel::CancelDisableGuard::new();\n        let mut r = self.rlock.lock().expect(\"rwlock read_unlock\");", "        let mut r = self.rlock.lock().expect(\"rwlock read_unlock\");"))
+mut("f24-revert-waitgroup-drop-mask", ["C11"], "drop-not-a-cancellation-point",
+    ("src/sync/wait_group.rs", "        let _g = crate::cancel::CancelDisableGuard::new();\n        let mut count = self.inner.count.lock().unwrap();\n        *count -= 1;", "        let mut count = self.inner.count.lock().unwrap();\n        *count -= 1;"))
+mut("f23-mask-after-lock", ["C12"], "drop-not-a-cancellation-point",
+    ("src/sync/rwlock.rs", "        let _g = crate::cancel::CancelDisableGuard::new();\n        let mut r = self.rlock.lock().expect(\"rwlock read_unlock\");", "        let mut r = self.rlock.lock().expect(\"rwlock read_unlock\");\n        let _g = crate::cancel::CancelDisableGuard::new();"))
+
 # ---- F18: revert (nested run while the wait_kernel guard is held)
 mut("f18-revert-nested-run-under-guard", ["C01", "C02"], "no-nested-run-under-guard",
     ("src/park.rs", "                drop(g);\n                // here may have recursive call for subscribe", "                let _keep = &g;\n                // here may have recursive call for subscribe"))
